@@ -785,12 +785,22 @@ def merge_triple(gen, cls=None, minor=None, plain_eol=False):
         r.shuffle(outs)
         c = _code_cell(gen, m, "result = compute()\nresult\n", outs)
         c["execution_count"] = ec
+        timing = r.random() < 0.5
+        if timing:
+            # JupyterLab's "record timing": a dict of ISO time stamps in the cell metadata, rewritten by every run
+            c["metadata"]["execution"] = {"iopub.execute_input": "2024-01-01T10:00:00.000000Z", "iopub.status.busy": "2024-01-01T10:00:00.100000Z",
+                                          "shell.execute_reply": "2024-01-01T10:00:01.000000Z"}
         pos = r.randrange(len(base["cells"]) + 1)
         for nb in (base, loc, rem):
             nb["cells"].insert(pos, copy.deepcopy(c))
         rec = []
         for side, nb, bump in (("L", loc, r.choice([1, 2])), ("R", rem, r.choice([1, 3, 3, 0]))):
             cc = nb["cells"][pos]
+            if timing and (bump or side == "L"):
+                day = "02" if side == "L" else "03"
+                cc["metadata"]["execution"] = {k: v.replace("-01-01T", "-01-%sT" % day) for k, v in cc["metadata"]["execution"].items()}
+                if r.random() < 0.3:
+                    cc["metadata"]["execution"]["iopub.status.idle"] = "2024-01-%sT10:00:01.200000Z" % day
             if bump:
                 cc["execution_count"] = ec + bump
                 for o in cc["outputs"]:
@@ -1289,17 +1299,25 @@ def merge_args(cfg):
         _ARGS_CACHE[key] = ns
         from .nbd import quiet_logging
         quiet_logging()
-    return copy.copy(_ARGS_CACHE[key])
+    ns = copy.copy(_ARGS_CACHE[key])
+    if cfg.get("log_level"):
+        ns.log_level = cfg["log_level"]      # what --log-level leaves on the options object
+    return ns
 
 
 def covering_configs(rng, k):
-    """k configurations such that value pairs get covered quickly: default, mergetool, then random."""
+    """k configurations such that value pairs get covered quickly: default, mergetool, then random.  One in six runs at
+    log level DEBUG (the library then pretty-prints its inputs, diffs and decisions on the way)."""
     cfgs = [{"merge": "inline", "input": None, "output": None, "ignore_transients": True},
             {"merge": "mergetool", "input": None, "output": None, "ignore_transients": True}]
     allc = all_merge_configs()
     while len(cfgs) < k:
         cfgs.append(rng.choice(allc))
-    return cfgs[:k]
+    cfgs = [dict(c) for c in cfgs[:k]]
+    for c in cfgs:
+        if rng.random() < 1 / 6:
+            c["log_level"] = "DEBUG"
+    return cfgs
 
 
 def degenerate_docs():
